@@ -374,6 +374,54 @@ func genCase(t *rapid.T) Case {
 		c.Text = head
 	}
 
+	// ---- a container constant used again at a container type with narrower elements: the elements
+	// (literals, or references to constants of a base type or of a typedef) must be checked against
+	// the type they end up in, not only against the one they were first written for
+	if rapid.IntRange(0, 2).Draw(t, "recontainer") == 0 {
+		wide := rapid.SampledFrom([]string{"i16", "i32", "i64"}).Draw(t, "rwide")
+		narrow := rapid.SampledFrom([]string{"i8", "i16", "i32"}).Draw(t, "rnarrow")
+		v, spell := genInt(t, "rv")
+		if !inRange(v, intBits(wide)) {
+			v, spell = 1000, "1000"
+		}
+		wname := wide
+		if rapid.Bool().Draw(t, "rtypedef") {
+			wname = "RW"
+			fmt.Fprintf(&b.sb, "typedef %s RW\n", wide)
+		}
+		elem := spell
+		if rapid.IntRange(0, 2).Draw(t, "rref") > 0 {
+			fmt.Fprintf(&b.sb, "const %s RB = %s\n", wname, spell)
+			elem = "RB"
+		}
+		var wideT, narrowT, lit string
+		switch rapid.IntRange(0, 3).Draw(t, "rcont") {
+		case 0:
+			wideT, narrowT, lit = "set<"+wname+">", "set<"+narrow+">", "[1, "+elem+"]"
+		case 1:
+			wideT, narrowT, lit = "list<"+wname+">", "list<"+narrow+">", "[1, "+elem+"]"
+		case 2:
+			wideT, narrowT, lit = "map<"+wname+", i32>", "map<"+narrow+", i32>", "{1: 1, "+elem+": 2}"
+		case 3:
+			wideT, narrowT, lit = "map<i32, "+wname+">", "map<i32, "+narrow+">", "{1: 1, 2: "+elem+"}"
+		}
+		fmt.Fprintf(&b.sb, "const %s RWIDE = %s\n", wideT, lit)
+		switch rapid.IntRange(0, 3).Draw(t, "ruse") {
+		case 0:
+			fmt.Fprintf(&b.sb, "const %s RNARROW = RWIDE\n", narrowT)
+		case 1:
+			fmt.Fprintf(&b.sb, "struct RD { 1: optional %s p = RWIDE }\n", narrowT)
+		case 2:
+			fmt.Fprintf(&b.sb, "const list<%s> RNARROWS = [RWIDE]\n", narrowT)
+		case 3:
+			fmt.Fprintf(&b.sb, "const map<string, %s> RNARROWM = {\"k\": RWIDE}\n", narrowT)
+		}
+		if !inRange(v, intBits(narrow)) {
+			b.violate("constant-out-of-range-via-container-reuse-" + narrow)
+		}
+		c.Boundary = c.Boundary || nearBoundary(v, intBits(narrow))
+	}
+
 	c.Text += b.sb.String()
 	for k := range b.viol {
 		c.Violations = append(c.Violations, k)
